@@ -2530,6 +2530,12 @@ func (db *DatabaseCollectionWithUser) recalculateSyncFnForActiveRev(ctx context.
 	}
 
 	if curBody != nil {
+		if rev, ok := doc.History[doc.GetRevTreeID()]; ok && rev.Deleted && curBody[BodyDeleted] != true {
+			// The revision that becomes current is a tombstone without a body of its own (conflict resolution writes
+			// such tombstones) and what was found is the body of its nearest live ancestor. The channels and grants of
+			// the document are those of the tombstone, not of the revision it deleted.
+			curBody = Body{BodyId: doc.ID, BodyRev: doc.GetRevTreeID(), BodyDeleted: true}
+		}
 		base.DebugfCtx(ctx, base.KeyCRUD, "updateDoc(%q): Rev %q causes %q to become current again",
 			base.UD(doc.ID), newRevID, doc.GetRevTreeID())
 		channelSet, access, roles, syncExpiry, oldBodyJSON, err = db.getChannelsAndAccess(ctx, doc, curBody, metaMap, doc.GetRevTreeID())
